@@ -292,6 +292,11 @@ type harvested struct {
 	what string
 	n    *node.Node // nil for proof nodes and triedb-encoded nodes
 	enc  []byte
+	// raw: a proof entry that is not a node encoding but the storage value a
+	// V1 node only carries the hash of (proofs ship such values as separate
+	// entries, as Substrate's do). Arbitrary bytes for the decoders: robustness
+	// applies, the round trip does not.
+	raw bool
 }
 
 // harvest builds a real in-memory trie from tape contents and collects the
@@ -341,8 +346,29 @@ func harvest(k *kernel.K) []harvested {
 	for i := 0; i < nproof; i++ {
 		pk = append(pk, keys[k.Choose(len(keys), "proofkey")])
 	}
+	// what a proof entry may be besides a node encoding: the value of a V1
+	// node that is too long to be inlined (harness criterion, spec threshold:
+	// more than 32 bytes), which the node encoding replaces by its hash
+	nodeEncs, hashedValues := map[string]bool{}, map[string]bool{}
+	for _, h := range out {
+		nodeEncs[string(h.enc)] = true
+		if ver == "v1" && len(h.n.StorageValue) > 32 {
+			hashedValues[string(h.n.StorageValue)] = true
+		}
+	}
 	if nodes, err := proof.Generate(root[:], pk, db); err == nil {
 		for i, e := range nodes {
+			switch {
+			case nodeEncs[string(e)]:
+				k.Probe("proof-entry-is-trie-node")
+			case hashedValues[string(e)]:
+				k.Probe("proof-entry-is-raw-hashed-value")
+				out = append(out, harvested{what: fmt.Sprintf("%s proof raw hashed value %d", ver, i), enc: e, raw: true})
+				continue
+			default:
+				// neither: still has to decode as a node (round trip below)
+				k.Probe("proof-entry-unknown")
+			}
 			out = append(out, harvested{what: fmt.Sprintf("%s proof node %d", ver, i), enc: e})
 		}
 	} else {
@@ -442,8 +468,15 @@ func runTrie(k *kernel.K) {
 	k.Event("node:"+vn, "%s len=%d enc=%s", h.what, len(h.enc), hx(h.enc))
 	trace("run %d %s %s len=%d", k.RunIx, h.what, vn, len(h.enc))
 
-	// round trip of the intact encoding
-	c.roundTrip(h)
+	// round trip of the intact encoding; a raw value shipped in a proof is not
+	// a node encoding, for it only "a node or an error, no panic" is demanded
+	if h.raw {
+		c.mutants++
+		k.Faults["random"]++
+		c.checkTrie(mutant{kind: "random", detail: "raw hashed value of a proof, intact", data: h.enc})
+	} else {
+		c.roundTrip(h)
+	}
 
 	comp, _ := refNodeScan(h.enc)
 	stats := map[string][2]int{}
